@@ -7,7 +7,7 @@ from vlib.oracles import dense, quat_to_mat, loguniform, random_unit
 
 ID = "C24"
 LEVEL = "fault_enumeration"
-RULE = ("each case: one scenario (two-body chain with revolute + body-body joint; spring on a revolute joint wound past one turn; stiff torsional oscillator swinging about a whole number of turns; "
+RULE = ("each case: one scenario (elastic pendulum on a compliance-form two-point spring; two-body chain with revolute + body-body joint; spring on a revolute joint wound past one turn; stiff torsional oscillator swinging about a whole number of turns; "
         "ball bouncing / sliding on a plane with friction; two balls with a sphere-sphere contact; point mass on a Maxwell "
         "element) x solver (Rattle, BackwardEuler, Moreau, ScipyIVP where applicable) x split step k. The uninterrupted run of N "
         "steps is compared with: run k steps, deep-copy the system, set_new_initial_state(q_k, u_k, t_k), run N-k steps. quick: 6 "
@@ -28,7 +28,9 @@ CASE_TIMEOUT = 600
 WALL_BUDGET = {"quick": 1200, "thorough": 7200}
 SCEN = {"chain": ["Rattle", "BackwardEuler"], "wound": ["Rattle", "BackwardEuler", "ScipyIVP", "Moreau"], "ball": ["Moreau", "Rattle", "BackwardEuler"],
         "balls": ["Moreau", "Rattle"], "maxwell": ["Rattle", "Moreau", "ScipyIVP"], "carrier": ["Moreau", "BackwardEuler", "Rattle"],
-        "oscillator": ["Moreau", "Rattle", "BackwardEuler"]}
+        "oscillator": ["Moreau", "Rattle", "BackwardEuler"],
+        # elastic pendulum on a compliance-form spring / spring-damper between two points: the force direction swings with the motion
+        "elastic": ["Rattle", "Moreau", "BackwardEuler"]}
 GRAV = np.array([0, 0, -9.81])
 DT = 5e-3
 
@@ -145,6 +147,16 @@ def _build(rng, sc, horizon=0.15, t0=0.0):
         if sc == "balls":
             S.add(Sphere2Sphere(balls[0], balls[1], R, R, mu, e_N=e_N, e_F=0.0, name="s2s"))
         info.update({"mu": mu, "e_N": e_N})
+    elif sc == "elastic":
+        from cardillo.force_laws import KelvinVoigtElement
+        pm = PointMass(1.0, q0=np.array([0.6, 0.2, -0.5]), u0=rng.normal(size=3) * 1.5, name="pm")
+        tpi = TwoPointInteraction(S.origin, pm)
+        k = float(rng.uniform(50, 300))
+        kv = bool(rng.random() < 0.5)
+        law = (KelvinVoigtElement(tpi, k, float(rng.uniform(0.5, 3)), l_ref=0.7, compliance_form=True, name="leg") if kv
+               else Spring(tpi, k, l_ref=0.7, compliance_form=True, name="leg"))
+        S.add(pm, tpi, law, Force(GRAV, pm, name="g"))
+        info.update({"law": "KelvinVoigt:compliance" if kv else "Spring:compliance", "k": k})
     else:
         pm = PointMass(1.0, q0=np.array([0.8, 0.1, -0.3]), u0=rng.normal(size=3), name="pm")
         tpi = TwoPointInteraction(S.origin, pm)
